@@ -32,7 +32,7 @@ func TestVerifSmoke(t *testing.T) {
 	for i := 0; i < n; i++ {
 		dir := t.TempDir()
 		synctest.Test(t, func(t *testing.T) {
-			env := newEnv(map[string][]fInteg{"r1": {{"webhook", 0, true}, {"email", 1, false}}})
+			env := newEnv(map[string][]fInteg{"r1": {{"webhook", 0, true}, {"email", 0, false}}})
 			f, err := newFApp(dir, fYAML1, env, defaultFOpts())
 			if err != nil {
 				t.Fatal(err)
